@@ -145,7 +145,26 @@ def p_match( ctx ):
         res.ok( src, lz[0], 'requests and collected replies are paired positionally by a lazy zip' )
     else:
         res.bad( src, fn, 'harvest pairing', 'issued requests must be paired in order with collected replies' )
-    # the yielded tuple carries the request's own index/description and the paired reply
+    # the context that is compared identifies the request: every index_to_sender_context derives it from the index ( a constant context makes the
+    # equality vacuous - replies are then matched by position and service code alone )
+    n_ctx = 0
+    for qn, defs in sorted( src.defs.items()):
+        if qn.split( '.' )[-1] != 'index_to_sender_context':
+            continue
+        for d in defs:
+            if not isinstance( d, ast.FunctionDef ) or len( d.args.args ) < 2:
+                continue
+            n_ctx += 1
+            IDX = d.args.args[1].arg
+            rets = [ r for r in walk_no_nested( d ) if isinstance( r, ast.Return ) ]
+            const = [ r for r in rets if r.value is None or IDX not in names_in( r.value ) ]
+            if rets and not const:
+                res.ok( src, d, '%s derives the sender context from the request index' % qn )
+            else:
+                res.bad( src, d, '%s returns a constant sender context ( %s )' % ( qn, norm_text( const[0].value ) if const and const[0].value is not None else None ),
+                         'every request of the session carries the same context: harvest\'s context equality cannot tell a reply from the reply to another request - when one reply is lost, the following replies of the same service are attributed to the wrong requests', func=qn )
+    if n_ctx < 1:
+        raise AnalysisError( 'P-MATCH: no index_to_sender_context definition found' )
     return res
 
 
@@ -238,6 +257,20 @@ def p_gateway( ctx ):
         res.ok( src, cg, 'close_gateway: close() and gateway = None' )
     else:
         res.bad( src, cg, 'proxy.close_gateway', 'the connection must be closed and forgotten (gateway = None) so that the next use reconnects' )
+    # ... and forgotten even when closing FAILS: a connected gateway's close() sends a Forward Close and raises on a dead connection (the
+    # very situation close_gateway is called in); every path from the close() call to ANY exit, exceptional ones included, stores None
+    def gw_may_raise( node ):
+        return node is not None and any( isinstance( c, ast.Call ) and ( dotted( c.func ) or '' ).startswith( 'self.gateway.' ) for c in ast.walk( node ))
+    gcfg = CFG( cg, may_raise=gw_may_raise )
+    closes = [ n for n in gcfg.nodes if n.kind == 'stmt' and pfind( n.stmt, 'self.gateway.close()' ) ]
+    forgets = [ n for n in gcfg.nodes if n.kind == 'stmt' and pmatch( n.stmt, 'self.gateway = None' ) is not None ]
+    if not closes:
+        raise AnalysisError( 'proxy.close_gateway: the close() call has no CFG node' )
+    if forgets and all( gcfg.must_pass( c, x, forgets, correlated=False ) for c in closes for x in ( gcfg.exit, gcfg.raise_exit )):
+        res.ok( src, cg, 'close_gateway: gateway = None is stored on every path from close(), including the paths on which close() raises' )
+    else:
+        res.bad( src, closes[0].stmt, 'proxy.close_gateway: an exception from self.gateway.close() skips self.gateway = None',
+                 'a connected gateway raises from close() when its connection is already dead ( Forward Close -> EPIPE ): the dead gateway is kept, open_gateway sees it and never reconnects - every later use fails' )
     og = src.get( 'proxy.open_gateway' )
     w = [ x for x in ast.walk( og ) if isinstance( x, ast.With ) and any( txt( it.context_expr ) == 'self.gateway_lock' for it in x.items ) ]
     cr = [ i for i in ast.walk( og ) if isinstance( i, ast.If ) and pmatch( i.test, 'self.gateway is None' ) and pfind( i, 'self.gateway = self.gateway_class( **_k )' ) or
@@ -472,6 +505,24 @@ def t_pathsyntax( ctx ):
             extra = set( sep ) - known - set( ' ' )
             if extra and not any( ch.isalnum() for ch in sep ):
                 res.bad( src, node_, 'format_path separates with %r' % sep, 'the path parser does not recognise this delimiter: a formatted path does not parse back' )
+    # an element index stays attached to the component it follows: the branch formatting the NEXT symbolic component flushes a pending index
+    # (or the element branch appends it in place) - kept in one variable and appended after the loop, the index of a non-final component
+    # moves to the end ( Foo[1].Boo is formatted "Foo.Boo[1]" and parses back to different segments )
+    lp_ = [ f_ for f_ in ast.walk( fp ) if isinstance( f_, ast.For ) and isinstance( f_.target, ast.Name ) ]
+    if lp_:
+        SEG = lp_[0].target.id
+        chain_ = [ i_ for i_ in ast.walk( lp_[0] ) if isinstance( i_, ast.If ) ]
+        eb = [ i_ for i_ in chain_ if pmatch( i_.test, "'element' in %s" % SEG ) is not None ]
+        sb = [ i_ for i_ in chain_ if pmatch( i_.test, "'symbolic' in %s" % SEG ) is not None ]
+        if eb and sb:
+            ev = [ t_.id for s_ in eb[0].body if isinstance( s_, ast.Assign ) for t_ in s_.targets if isinstance( t_, ast.Name ) ]
+            in_place = any( isinstance( s_, ( ast.AugAssign, ast.Expr )) for s_ in eb[0].body )
+            flushed = ev and any( isinstance( n_, ast.Name ) and n_.id == ev[0] and isinstance( n_.ctx, ast.Load ) for b_ in sb[0].body for n_ in ast.walk( b_ ))
+            if in_place or flushed:
+                res.ok( src, eb[0], 'an element index is emitted at the component it belongs to' )
+            else:
+                res.bad( src, eb[0], "format_path keeps the element index in %r and appends it after the last component" % ( ev[0] if ev else '?' ),
+                         'the index of a non-final component moves to the end: [Foo, element 1, Boo] is formatted "Foo.Boo[1]", which parses back to [Foo, Boo, element 1]' )
     pp = dsrc.get( 'parse_path' ); ppe = dsrc.get( 'parse_path_elements' ); ppc = dsrc.get( 'parse_path_component' ); pi = dsrc.get( 'parse_int' )
     parser_consts = ''.join( c.value for f in ( pp, ppe, ppc, pi ) for c in ast.walk( f ) if isinstance( c, ast.Constant ) and isinstance( c.value, str ))
     need = { '@': ( pp, ppc ), '/': ( pp, ), '[': ( ppe, ppc ), ']': ( ppe, ppc ), '-': ( ppe, ), '.': ( pp, ) }
@@ -641,6 +692,101 @@ def p_chain( ctx ):
             if isinstance( d, ( ast.Call, ast.List, ast.Dict, ast.Set )):
                 res.bad( src, d, '%s( ..., %s=%s )' % ( qn, p_.arg, norm_text( d )), 'a stateful default argument is created once and shared by every call: all sessions parse from one buffer', func=qn )
         res.ok( src, fn, '%s: no stateful default arguments' % qn, nontrivial=False )
+    return res
+
+
+@rule( 'P-SEPARATORS', props=( 'C20', ), floor=3 )
+def p_separators( ctx ):
+    """tnet_from discards the `ignore` symbols BETWEEN messages wherever input can arrive there.  Input arrives at the chain site inside the
+    engine loop; the previous message may have ended with the previous block, so (1) every path from the chain site back to the engine
+    passes a discard loop, (2) that loop is guarded by "no symbol of the current message consumed yet" ( source.sent == <a name that only
+    ever holds source.sent> ) - unguarded it would eat payload bytes that fall on a block boundary - and (3) the marker is refreshed after
+    each discarded symbol before the guard is evaluated again."""
+    res = Result( 'P-SEPARATORS' )
+    from .rules_paths import LocalDefs
+    src = ctx.src( 'server/tnet.py' )
+    fn = src.get( 'tnet_from' )
+    chains = [ c for c in ast.walk( fn ) if isinstance( c, ast.Call ) and isinstance( c.func, ast.Attribute ) and c.func.attr == 'chain' and len( c.args ) == 1 ]
+    if len( chains ) != 1:
+        raise AnalysisError( 'tnet_from: expected one chain site, found %d' % len( chains ))
+    SOURCE = dotted( chains[0].func.value )
+    loops = [ f for f in ast.walk( fn ) if isinstance( f, ast.For ) and isinstance( f.iter, ast.Call ) and isinstance( f.iter.func, ast.Attribute ) and f.iter.func.attr == 'run'
+              and any( k.arg == 'source' and dotted( k.value ) == SOURCE for k in f.iter.keywords ) ]
+    if len( loops ) != 1:
+        raise AnalysisError( 'tnet_from: the engine loop ( for ... in <engine>.run( source=%s ...)) not found' % SOURCE )
+    loop = loops[0]
+
+    def member_tests( e ):
+        return [ c for c in ast.walk( e ) if isinstance( c, ast.Compare ) and len( c.ops ) == 1 and isinstance( c.ops[0], ast.In )
+                 and pmatch( c.left, '%s.peek()' % SOURCE ) is not None and isinstance( c.comparators[0], ast.Name ) ]
+    skips = [ w for w in ast.walk( fn ) if isinstance( w, ast.While ) and member_tests( w.test ) and any( pmatch( c, 'next( %s )' % SOURCE ) is not None for b in w.body for c in ast.walk( b )) ]
+    if not skips:
+        raise AnalysisError( 'tnet_from: no loop discarding ignored symbols ( while ... %s.peek() in <ignore>: next( %s )) found' % ( SOURCE, SOURCE ))
+    IGNORE = member_tests( skips[0].test )[0].comparators[0].id
+    if IGNORE not in [ a.arg for a in fn.args.args + fn.args.kwonlyargs ]:
+        raise AnalysisError( 'tnet_from: the discarded set %r is not a parameter' % IGNORE )
+    cfg = CFG( fn )
+    inside = lambda n: any( a is loop for a in src.ancestors( n ))
+    head = [ w for w in skips if not inside( w ) ]
+    inner = [ w for w in skips if inside( w ) ]
+    hnode = [ n for n in cfg.nodes if n.kind == 'for' and n.stmt is loop ]
+    if not hnode:
+        raise AnalysisError( 'tnet_from: engine loop has no CFG node' )
+    hnode = hnode[0]
+    # (0) separators that arrived together with the previous message: discarded ahead of each engine run
+    dom = cfg.dominators()
+    tests_of = lambda w: [ n for n in cfg.nodes if n.kind == 'test' and n.stmt is w ]
+    if head and any( cfg.dominates( t, hnode, dom ) for w in head for t in tests_of( w )):
+        res.ok( src, head[0], 'ignored symbols following a message in the same block are discarded ahead of every engine run' )
+    else:
+        res.bad( src, loop, 'tnet_from: no discard of %s ahead of %s' % ( IGNORE, txt( loop.iter )), 'separators between two messages received in one block reach the length parser' )
+    # (1) every path chain site -> engine passes a discard loop
+    cnode = [ n for n in cfg.nodes if n.kind == 'stmt' and any( c is chains[0] for c in ast.walk( n.stmt )) ]
+    if not cnode:
+        raise AnalysisError( 'tnet_from: chain site has no CFG node' )
+    def start_guard( e ):
+        return any( isinstance( c, ast.Compare ) and len( c.ops ) == 1 and isinstance( c.ops[0], ast.Eq ) and SOURCE + '.sent' in ( dotted( c.left ), dotted( c.comparators[0] )) for c in ast.walk( e ))
+    # a start-of-message guard around the discard loop may be passed instead ( its false branch: the message has begun )
+    through = [ t for w in inner for t in tests_of( w ) ] + [ n for w in inner for a in src.ancestors( w ) if isinstance( a, ast.If ) and inside( a ) and start_guard( a.test )
+                                                             for n in cfg.nodes if n.kind == 'test' and n.stmt is a ]
+    if through and all( cfg.must_pass( c, hnode, through, correlated=False ) for c in cnode ):
+        res.ok( src, chains[0], 'every path from %s.chain( ... ) back to the engine passes a discard loop' % SOURCE )
+    else:
+        res.bad( src, chains[0], 'tnet_from: %s is consulted only ahead of %s, not after %s.chain( ... )' % ( IGNORE, txt( loop.iter ).split( '(' )[0], SOURCE ),
+                 "a separator that arrives in a LATER block than the end of the previous message ( b'1:a,' | b'\\n1:b,' ) reaches the length parser: NonTerminal, or not, depending on how the stream is cut" )
+        return res
+    # (2) + (3) the in-loop discard is guarded by "nothing of the current message consumed", and the marker follows the discarded symbols
+    ld = LocalDefs( fn )
+    for w in inner:
+        guards = [ w.test ] + [ a.test for a in src.ancestors( w ) if isinstance( a, ( ast.If, ast.While )) and inside( a ) ]
+        marker = None
+        for g in guards:
+            for c in ast.walk( g ):
+                if isinstance( c, ast.Compare ) and len( c.ops ) == 1 and isinstance( c.ops[0], ast.Eq ):
+                    sides = [ c.left, c.comparators[0] ]
+                    for a_, b_ in ( sides, sides[::-1] ):
+                        if dotted( a_ ) == SOURCE + '.sent' and isinstance( b_, ast.Name ):
+                            marker = b_.id
+        if marker is None:
+            res.bad( src, w, 'tnet_from: the discard after %s.chain( ... ) is not limited to the start of a message ( no %s.sent == <marker> guard )' % ( SOURCE, SOURCE ),
+                     'a payload byte equal to an ignored symbol that happens to be the first of a block is dropped: the payload depends on how the stream is cut' )
+            continue
+        defs = ld.defs.get( marker, [] )
+        if not defs or any( dotted( d ) != SOURCE + '.sent' for d in defs ):
+            res.bad( src, w, 'tnet_from: marker %s is not only ever %s.sent ( %s )' % ( marker, SOURCE, sorted( { norm_text( d ) for d in defs } )), 'the start-of-message guard compares against something else' )
+            continue
+        stores = [ n for n in cfg.nodes if n.kind == 'stmt' and isinstance( n.stmt, ast.Assign ) and any( isinstance( t, ast.Name ) and t.id == marker for t in n.stmt.targets ) ]
+        first = [ n for n in stores if not inside( n.stmt ) ]
+        if not any( cfg.dominates( n, hnode, dom ) for n in first ):
+            res.bad( src, w, 'tnet_from: marker %s is not set ahead of each engine run' % marker, 'the guard compares against the position of an earlier message' )
+            continue
+        nexts = [ n for n in cfg.nodes if n.kind == 'stmt' and any( a is w for a in src.ancestors( n.stmt )) and any( pmatch( c, 'next( %s )' % SOURCE ) is not None for c in ast.walk( n.stmt )) ]
+        gnodes = [ n for n in cfg.nodes if n.kind == 'test' and any( n.expr is g and start_guard( g ) for g in guards ) ]
+        refresh = [ n for n in stores if inside( n.stmt ) ]
+        if nexts and all( cfg.must_pass( x, t, refresh, correlated=False ) for x in nexts for t in gnodes + [ hnode ] ):
+            res.ok( src, w, 'the discard after %s.chain( ... ) runs only while %s.sent == %s ( nothing of the current message consumed ), and %s follows each discarded symbol' % ( SOURCE, SOURCE, marker, marker ))
+        else:
+            res.bad( src, w, 'tnet_from: %s is not refreshed after next( %s ) in the discard loop' % ( marker, SOURCE ), 'only the first of several separators is discarded ( a blank line between messages fails )' )
     return res
 
 
